@@ -9,6 +9,8 @@ A case carries its operands itself (so a replay file is self-describing).  An op
     {..., 'via': 'cell'|'fn'}    the same host value (any of the three forms above) reaching the comparison by another ROUTE:
                                  'cell' = answered by the host's callCellValue listener (the formula says A1 for the left,
                                  B1 for the right operand), 'fn' = returned by a host function (GX() left, GY() right)
+    {'v': text, 'lit': True}     the text WRITTEN in the formula as a quoted literal (delimited by the quote character it does
+                                 not contain) instead of arriving as a variable
     {'e': 'formula text'}        an operand BORN IN THE FORMULA: a number literal or a small computation
                                  (`0.1+0.2`), written in parentheses in the comparison; a plain unsigned literal is worth
                                  the number it spells (digits: that integer; a decimal: the nearest double), any other text
@@ -18,10 +20,11 @@ and a case is {'kind': 'pair', 'a': opnd, 'b': opnd, 'tz': None | POSIX-TZ-strin
 (os.environ['TZ'] + time.tzset()) is that zone; the oracle and the model request are the same as without.
 
 A pair is evaluated with all six operators (and `>` with the operands swapped) and judged by the oracle; when both operands
-are variables it is also compared with the Lean model.  A triple is judged for transitivity by the oracle only.
+are variables (re-typed, re-routed and quoted-literal texts count as variables here) it is also compared with the Lean model.  A triple is judged for transitivity by the oracle only.
 Streams of cases(): the fixed WITNESSES, (1) the general pool, (2) clusters of nearly equal numbers / date-times, (2b) cases of
 (1)-(2) with operands re-typed to subclass instances / enum members, (2c) pairs of (1) and cases of (1)-(2b) with operands
-re-routed through the cell listener / a host function, (3) the date-related pool and clusters under a process zone.
+re-routed through the cell listener / a host function, (2d) all ordered pairs of 16 texts with one or both written as quoted
+literals, (3) the date-related pool and clusters under a process zone.
 """
 import contextlib
 import datetime
@@ -89,7 +92,12 @@ RULE = ('Cases are pairs (all six operators < = > <= >= <> on the two operands, 
         '40% no case (about 960 pairs per route); plus a seeded sample of 300*scale (thorough 3000*scale) of the zone-free cases so '
         'far that have no re-routed operand (re-typed ones of (2b) included), each operand that is not born in the formula re-routed '
         'with probability 0.5 by a seeded route, added when at least one was (pairs and triples; in a triple the route of an operand '
-        'is used on whichever side of a comparison it stands).  About 2150 such cases in quick, 4300 in thorough.  '
+        'is used on whichever side of a comparison it stands; cases with a quoted-literal operand of (2d) are not in this sample).  About 2150 such cases in quick, 4300 in thorough.  '
+        '(2d) TEXT LITERALS: 16 texts T (C:\\temp, C:temp, a\\z, az, ab, 50\\%, 50%, it\'s, say "hi", " a", "a ", the empty text, A, a, 10, 9: '
+        'backslashes, a quote of either kind, leading and trailing blanks, case, digits), all 256 ordered pairs, each once: 40% the left '
+        'operand WRITTEN in the formula as a quoted literal (delimited by " unless the text contains one, then by \') and the right '
+        'one the variable y, 30% the right one written and the left the variable x, 30% both written; a written text is worth exactly '
+        'the characters between its quotes (a backslash is a character like any other) and is judged by the same oracle as the variable.  '
         '(3) PROCESS TIME ZONE: per zone (quick: EST5EDT,M3.2.0,M11.1.0; thorough: also AEST-10AEDT,M10.1.0,M4.1.0/3 and '
         'CET-1CEST,M3.5.0,M10.5.0/3) a date-related pool of 48: 25 dates and date-times (the 5 of 1900, 1969-12-31 21:00, 1970-01-01, '
         '2020-01-15 00:00 and 12:00, 1 Jan and 1 July 2021 12:00, and for both transition days of the zone in 2021 01:30, 02:00, '
@@ -99,17 +107,18 @@ RULE = ('Cases are pairs (all six operators < = > <= >= <> on the two operands, 
         'seeded clusters (4*scale / 40) of 7 under a zone seeded from the three (also in quick): 5 date-times within 00:00..04:59 of '
         'a transition day of a year 1971..2037, one date-time six months away, the number for 01:30 / 03:00 / 04:30 / 07:30 of that '
         'day; and (2*scale / 10) seeded date-time clusters of 10 as in (2) under a seeded zone; all pairs and triples of each.  '
-        'About 39600 cases in quick (106600 at scale 5), 554700 in thorough.  '
-        'MODEL: a pair whose operands are both variables (re-typed ones are sent as the plain value, re-routed ones as the plain '
+        'About 39900 cases in quick (106900 at scale 5), 554900 in thorough.  '
+        'MODEL: a pair whose operands are both variables (re-typed ones are sent as the plain value, re-routed ones and texts written as '
+        'quoted literals (2d) as the plain '
         'variable x / y holding the value; with or without zone) is also '
-        'answered by the Lean model, the six formulas x<op>y in one request (about 10300 pairs quick, 29800 thorough); all six records '
+        'answered by the Lean model, the six formulas x<op>y in one request (about 10600 pairs quick, 30100 thorough); all six records '
         'must match (same logical, or same error; a model answer "no opinion" decides nothing); pairs for which the statement accepts '
         'more than one answer (below the resolution of a double serial) are not compared.  Pairs with an operand born in the formula '
         'and all triples are judged by the oracle only; triples containing a blank are not judged.  '
         'When a proof or the correspondence broke and no input failed, search() runs the thorough case list on the oracle alone up '
         'to the first failure.  No time or step budget; each (operator, operands, zone) is evaluated once per run and cached.  '
         'Non-trivial = the operand descriptions are pairwise different (as Python dicts: variables 1, 1.0 and TRUE, or 0, 0.0 and '
-        'FALSE, count as the same; a literal, a re-typed or a re-routed operand differs from the plain variable of the same value); identical '
+        'FALSE, count as the same; a literal, a re-typed, a re-routed or a quoted-literal operand differs from the plain variable of the same value); identical '
         'cases count once.')
 TRUSTED = ['Python comparison of int/float/str/bool values (modelled: exact rationals, code-point lexicographic order); the oracle '
            'itself orders by Fraction(value) and by the list of code points',
@@ -126,7 +135,11 @@ TRUSTED = ['Python comparison of int/float/str/bool values (modelled: exact rati
            'date-times as microseconds since 1900-01-01; an instance of a subclass of int/float/str and an IntEnum member are sent '
            'as the plain value (the model has no host types), so the model answers for the plain value; an operand re-routed '
            'through the cell listener or a host function (2c) is sent as the variable x / y holding the value (the request has '
-           'no cell and no function), so the model answers for the variable',
+           'no cell and no function), so the model answers for the variable; likewise a text written as a quoted literal (2d) is '
+           'sent as the variable x / y holding the text: the model never sees the quoted spelling, that the literal is worth its '
+           'characters is judged by the oracle and through the agreement with that answer',
+           'text_literal (2d) delimits by " unless the text contains ", then by \' (asserted not to occur in it): none of the 16 '
+           'texts holds both quote characters',
            'routes (2c): the one parser has one callCellValue listener, which answers setter(value stored for the label) - '
            'None, i.e. blank, for a label nothing was stored for -, and the host functions GX / GY, which return the value '
            'stored under their name; the store (_route) is written by ev() just before the parse and never cleared; the '
@@ -158,6 +171,9 @@ ASSUMPTIONS = ['the order is rank first - number (ints, floats, dates and date-t
                'the route does not matter: a host value answered by the cell listener or returned by a host function is the '
                'same operand as that value held by a variable (an empty text stays an empty text, a logical a logical, a blank '
                'a blank) and is judged by the same oracle with the same expected answers',
+               'a text written in the formula as a quoted literal is the text between its quotes, character for character (C05: no '
+               'escape sequences, a backslash, the other quote and blanks are ordinary characters, no trimming or case folding), and '
+               'compares exactly as that text held by a variable does',
                'transitivity is demanded of <, >, =, <= and >= on non-blank values, across ranks and without any tolerance (also '
                'below the resolution of a serial): <= is exactly "< or =" of a total order, so it is transitive whenever the '
                'statement holds; <> is not transitive and is not tested in triples']
